@@ -233,11 +233,12 @@ MAKE = {
     "Output_get_data": lambda f: fm.Output(name="o", static=bool(f.get("is_static")), time=None if f.get("is_static") else EPOCH, grid=fm.NoGrid()),
     "Input_pull_data": lambda f: _mk_input(bool(f.get("is_static"))),
     "Output_push_data": lambda f: fm.Output(name="o", time=EPOCH, grid=fm.NoGrid()),
+    "Output_info": lambda f: fm.Output(name="o", time=EPOCH, grid=fm.NoGrid()) if f.get("has_info") else fm.Output(name="o"),
     "TimeCachingAdapter__source_updated": lambda f: ad.NextTime(),
     "TimeIntegrationAdapter__source_updated": lambda f: ad.AvgOverTime(),
     "interpolate": None, "interpolate_step": None, "check_time": None,
 }
-FIELD_ATTR = {"is_static": None, "has_targets": None}   # read-only properties: set through the constructor
+FIELD_ATTR = {"is_static": None, "has_targets": None, "has_info": None}   # read-only properties: set through the constructor
 
 
 def call_real(spec, fields, params, extra):
@@ -264,6 +265,8 @@ def call_real(spec, fields, params, extra):
                 if k in FIELD_ATTR:
                     continue
                 setattr(obj, k, to_py(ft[k], v))
+            if "has_targets" in fields and "prepared" not in extra:
+                obj._targets = [object()] if fields.get("has_targets") else []
             if "src_data" in extra:
                 obj._source = _Src(float(extra["src_data"]))
             if "pulled" in extra:
@@ -277,7 +280,11 @@ def call_real(spec, fields, params, extra):
                 obj._connected_inputs = {k: v for k, v in obj._connected_inputs.items()}
                 obj.notify_targets = lambda time: None
                 obj._targets = [object()] if fields.get("has_targets") else []
-            meth = getattr(obj, spec["qual"].split(".")[-1])
+            if spec.get("property"):
+                getattr(obj, spec["qual"].split(".")[-1])   # a property: reading it is the call
+                meth = lambda: None  # noqa
+            else:
+                meth = getattr(obj, spec["qual"].split(".")[-1])
             import inspect
             args = []
             for a in inspect.signature(meth).parameters:
